@@ -86,6 +86,11 @@ func ruleText(r models.Rule) string {
 			b.WriteString("  F(@name)\n")
 		}
 	}
+	if r.Fails && r.FailKind > 0 && r.FailKind < len(failStmts) && strings.Contains(failStmts[r.FailKind], "return ") {
+		// the failing statement is the rule's return: nothing may follow it
+		b.WriteString("end\n")
+		return b.String()
+	}
 	b.WriteString("  E(@name)\n")
 	if r.Returns {
 		b.WriteString("  return " + literal(r.RetVal) + "\n")
@@ -113,6 +118,11 @@ var failStmts = []string{
 	// "<rule>#c", reports CX when it ends): the rule is not over before the sibling is
 	"conc {\n    O.In.Boom()\n    cgate(@name)\n  }",
 	"conc {\n    cgate(@name)\n    zz = 1 / 0\n  }",
+	// break / continue outside any loop make the rule fail
+	"if tn == 1 {\n    break\n  }",
+	"continue",
+	// the rule reaches its return, but the value (read from an unexported field) cannot be handed out
+	"zh = O.hid\n  return zh",
 }
 
 // slowConcChild reports whether the failing statement of the rule has a gated conc sibling.
